@@ -11,6 +11,9 @@ def run(tier, seed):
 
 
 def replay(scenario):
+    if "recorded" in scenario:
+        from .. import suitectx
+        return suitectx.replay(PROP, scenario)
     if scenario.get("kind") == "race":
         return race.replay_case(PROP, scenario)
     out = ctxreplay.ctx_replay_case(PROP, scenario)
